@@ -283,11 +283,16 @@ def v4_engine(run):
               "SamlBase.verify no longer calls valid_instance(self)", sv.loc())
     # validate_value_type: enumeration / list / base
     vt = m.func("validate.validate_value_type")
-    vsrc = unparse(vt.node)
-    run.check("value not in spec['enumeration']" in vsrc and
-              "raise NotValid('value not in enumeration')" in vsrc and
-              "valid(spec['member'], val)" in vsrc and
-              "return valid(spec['base'], value)" in vsrc, "V4",
+    vcfg = cfg_of(vt, m)
+    enum_raise = [r for r in vcfg.by_kind("raise")
+                  if raised_class(r.ast) == "NotValid" and
+                  Q("value not in spec['enumeration']") in
+                  facts(vcfg, r.id, inline=True)]
+    base_ret = [r for r in vcfg.by_kind("return") if r.ast.value is not None
+                and vcfg.same(r.ast.value, r.id, "valid(spec['base'], value)")]
+    run.check(bool(enum_raise) and
+              vcfg.computes("valid(spec['member'], val)") and
+              bool(base_ret), "V4",
               vt.qual + "::kinds", "enumeration, list member and base type are "
               "all checked", "validate_value_type changed", vt.loc())
 
@@ -368,25 +373,26 @@ def v6_validators_raise(run, data):
                       sorted(h.dispositions), h.loc())
     # sign of the integer kinds
     for fn, want, desc in (
-            ("valid_positive_integer", ("accept", {"integer": 1}, True), "> 0"),
-            ("valid_non_negative_integer", ("reject", {"integer": -1}, True),
-             "< 0")):
+            ("valid_positive_integer", ({"integer": 1}, True), "> 0"),
+            ("valid_non_negative_integer", ({"integer": 1}, False), ">= 0")):
         fi = m.func("validate." + fn)
         cfg = cfg_of(fi, m)
         ok = False
+        sym = lambda e: e.id if isinstance(e, ast.Name) else None
         for t in cfg.by_kind("test"):
             if not isinstance(t.ast, ast.Compare):
                 continue
-            f = normal_forms(t.ast, True, lambda e: e.id if isinstance(
-                e, ast.Name) else None)
-            if not f:
+            if normal_forms(t.ast, True, sym) is None:
                 continue
             tb = [b for b in cfg.succ[t.id] if cfg.nodes[b].kind == "true"]
-            rej = tb and only_raises_from(cfg, tb[0])
-            if want[0] == "accept" and not rej and \
-                    f == [form(want[1], want[2])]:
-                ok = True
-            if want[0] == "reject" and rej and f == [form(want[1], want[2])]:
+            fb = [b for b in cfg.succ[t.id] if cfg.nodes[b].kind == "false"]
+            t_rej = bool(tb) and only_raises_from(cfg, tb[0])
+            f_rej = bool(fb) and only_raises_from(cfg, fb[0])
+            if t_rej == f_rej:
+                continue
+            # the condition under which the value is accepted
+            acc = normal_forms(t.ast, not t_rej, sym)
+            if acc == [form(*want)]:
                 ok = True
         run.check(ok, "V6", fi.qual + "::sign", "boundary is `integer %s`" % desc,
                   "sign test changed", fi.loc())
